@@ -2498,6 +2498,20 @@ Proof.
     + assert (b = false) as -> by (eapply (ccps_nobreak ver_now); eauto).
       specialize (A2 eq_refl). eapply tscope_expr; eauto.
 Qed.
+(* the pass makes no new names *)
+Lemma ccp_binders f f' fl : wf_func f = true -> ccp f = Some (f', fl) -> fst fl = false ->
+  f_params f' = f_params f /\ incl' (binders_l (f_body f')) (binders_l (f_body f)).
+Proof.
+  unfold wf_func, ccp, ccp_gen. intros Hwf H Hfl. apply andb_prop in Hwf. destruct Hwf as [Hwf Hret].
+  apply andb_prop in Hwf. destruct Hwf as [Hnd Hsc]. apply nodupb_NoDup in Hnd.
+  destruct (ccp_stmts ver_now ccp_fuel (f_body f) cx0) as [[[[out c] b] f1]|] eqn:E; [|discriminate].
+  injection H as <- <-. split; [reflexivity|]. cbn [f_body].
+  destruct (ccp_all (mkworld (fun _ _ _ => None) (fun _ => 0%Z) (fun _ => 0%Z) (fun _ v => v)) 0 ver_now eq_refl eq_refl ccp_fuel) as [_ HQ].
+  specialize (HQ (f_body f) cx0 out c b f1 (f_params f) E Hfl Hsc (f_params f) (cx_wf2_init _) (incl'_refl _)).
+  destruct HQ as [(_ & _ & B & _) _]; [eapply NoDup_app_r'; eauto | | exact B].
+  intros x Hb Hp. eapply (NoDup_app_disj' _ _ x Hnd); eauto.
+Qed.
+
 Theorem ccp_wf_named f f' fl :
   wf_func f = true -> no_break_l (f_body f) = true -> no_dead_final_operands f -> ccp f = Some (f', fl) -> wf_func f' = true.
 Proof. intros H1 H2 H3 H4. exact (ccp_wf f f' fl H1 H2 H4 (no_dead_flag f f' fl H3 H4)). Qed.
